@@ -99,6 +99,15 @@ class EscapeAnalysis:
         child = node
         n = getattr(node, "_parent", None)
         while n is not None and n is not fn.node:
+            if isinstance(n, ast.GeneratorExp) and child is not n.generators[0].iter:
+                # a generator expression is LAZY: its element / conditions / inner iterables are evaluated where it is consumed.
+                # Only when it is handed straight to a consumer (list(...), sum(...), "".join(...), a for statement's iterable ...)
+                # is that inside the try statements that enclose it lexically; bound to a name it is consumed anywhere later
+                par_ = getattr(n, "_parent", None)
+                consumed_here = isinstance(par_, ast.Call) and n in par_.args or (isinstance(par_, (ast.For, ast.AsyncFor)) and par_.iter is n) \
+                    or isinstance(par_, (ast.Starred, ast.YieldFrom, ast.comprehension))
+                if not consumed_here:
+                    return False
             if isinstance(n, ast.Try) and any(child is b for b in n.body):
                 for h in n.handlers:
                     if h.type is None:
@@ -387,6 +396,12 @@ class EscapeAnalysis:
             if recv_t and isinstance(codec, ast.Constant) and str(codec.value).lower() in ("ascii", "us-ascii"):
                 self.fact_points += 1
                 add(call, "UnicodeEncodeError", f"str.encode('ascii') of client text is not total (data from {sorted(recv_t)})", "fact")
+            elif codec is not None and not isinstance(codec, ast.Constant) and T(codec):
+                self.fact_points += 1
+                ctext = f"{ast.unparse(f.value)}.encode(<client-chosen codec>)"
+                add(call, "LookupError", f"str.encode(<client-chosen codec>): an unknown charset name raises LookupError (codec from {sorted(T(codec))})", "fact", ctext)
+                if recv_t:
+                    add(call, "UnicodeEncodeError", f"str.encode(<client-chosen codec>) of client text raises UnicodeEncodeError for most codecs (data from {sorted(recv_t)})", "fact", ctext)
             return
         if ext in ("int", "float") and call.args:
             t = T(call.args[0])
@@ -414,6 +429,7 @@ class EscapeAnalysis:
                 self.fact_points += 1
                 add(call, "NotADirectoryError", f"{ext}() of a client-derived path raises OSError subclasses other than FileNotFoundError ('/file.txt/x' -> NotADirectoryError, over-long name -> OSError) (path from {sorted(t)})", "fact")
                 add(call, "ValueError", f"{ext}() of a client-derived path raises ValueError for an embedded NUL (path from {sorted(t)})", "fact")
+                add(call, "OSError", f"{ext}() of a client-derived path raises plain OSError for a component longer than NAME_MAX (errno ENAMETOOLONG) or a symbolic-link loop (ELOOP): not a FileNotFoundError / NotADirectoryError (path from {sorted(t)})", "fact")
             return
         if ext == "json.loads" and call.args and T(call.args[0]):
             self.fact_points += 1
